@@ -458,3 +458,127 @@ impl Elem for B3 {
         self.id()
     }
 }
+
+// ---------------------------------------------------------------------------------------------
+/// Cell types of the in-place algorithm checks (props/grid.rs).  A cell is made from a model
+/// value `raw = key << 16 | id`, is ordered and compared by `key` only, and gives back the part
+/// of `raw` it can represent (`make(x).raw()` is the projection the model is compared under).
+/// The wide types spread the value over all their bytes and return a poisoned value when their
+/// bytes are not consistent, so that a torn or partial copy is visible.
+pub trait Cell: Copy + Ord + std::fmt::Debug + 'static {
+    const NAME: &'static str;
+    fn make(raw: u64) -> Self;
+    fn raw(&self) -> u64;
+    fn key(&self) -> u16;
+    fn set_key(&mut self, k: u16);
+}
+
+impl Cell for Kc {
+    const NAME: &'static str = "Kc(4 bytes)";
+    fn make(raw: u64) -> Kc {
+        Kc { key: (raw >> 16) as u16, id: raw as u16 }
+    }
+    fn raw(&self) -> u64 {
+        Kc::raw(self) as u64
+    }
+    fn key(&self) -> u16 {
+        self.key
+    }
+    fn set_key(&mut self, k: u16) {
+        self.key = k
+    }
+}
+
+const TORN: u64 = 1 << 40;
+
+macro_rules! keyed {
+    ($t:ident) => {
+        impl PartialEq for $t {
+            fn eq(&self, o: &Self) -> bool {
+                Cell::key(self) == Cell::key(o)
+            }
+        }
+        impl Eq for $t {}
+        impl PartialOrd for $t {
+            fn partial_cmp(&self, o: &Self) -> Option<Ordering> {
+                Some(self.cmp(o))
+            }
+        }
+        impl Ord for $t {
+            fn cmp(&self, o: &Self) -> Ordering {
+                Cell::key(self).cmp(&Cell::key(o))
+            }
+        }
+    };
+}
+
+/// one byte, no drop glue: 2 bits of key, 6 bits of id
+#[derive(Debug, Clone, Copy)]
+pub struct K1(pub u8);
+keyed!(K1);
+impl Cell for K1 {
+    const NAME: &'static str = "K1(1 byte)";
+    fn make(raw: u64) -> K1 {
+        K1(((((raw >> 16) & 3) as u8) << 6) | (raw & 63) as u8)
+    }
+    fn raw(&self) -> u64 {
+        (((self.0 >> 6) as u64) << 16) | (self.0 & 63) as u64
+    }
+    fn key(&self) -> u16 {
+        (self.0 >> 6) as u16
+    }
+    fn set_key(&mut self, k: u16) {
+        self.0 = (self.0 & 63) | (((k & 3) as u8) << 6)
+    }
+}
+
+/// 20 bytes, alignment 4 (16 bytes or more, not a multiple of 8)
+#[derive(Debug, Clone, Copy)]
+pub struct K20(pub [u32; 5]);
+keyed!(K20);
+impl Cell for K20 {
+    const NAME: &'static str = "K20(20 bytes)";
+    fn make(raw: u64) -> K20 {
+        let (k, id) = ((raw >> 16) as u32 & 0xffff, raw as u32 & 0xffff);
+        K20([k, id, id ^ 0x5555_5555, id.wrapping_mul(3), id.wrapping_add(0x0101_0101)])
+    }
+    fn raw(&self) -> u64 {
+        let [k, id, a, b, c] = self.0;
+        let ok = k <= 0xffff && id <= 0xffff && a == id ^ 0x5555_5555 && b == id.wrapping_mul(3) && c == id.wrapping_add(0x0101_0101);
+        ((k as u64) << 16) | id as u64 | if ok { 0 } else { TORN }
+    }
+    fn key(&self) -> u16 {
+        self.0[0] as u16
+    }
+    fn set_key(&mut self, k: u16) {
+        self.0[0] = k as u32
+    }
+}
+
+/// 4800 bytes (more than a page)
+#[derive(Debug, Clone, Copy)]
+pub struct Fat(pub [u64; 600]);
+keyed!(Fat);
+impl Cell for Fat {
+    const NAME: &'static str = "Fat(4800 bytes)";
+    fn make(raw: u64) -> Fat {
+        let mut a = [0u64; 600];
+        let id = raw & 0xffff;
+        for (i, v) in a.iter_mut().enumerate() {
+            *v = id.wrapping_add(i as u64 * 0x1_0001);
+        }
+        a[0] = raw & 0xffff_ffff;
+        Fat(a)
+    }
+    fn raw(&self) -> u64 {
+        let id = self.0[0] & 0xffff;
+        let ok = self.0[0] <= 0xffff_ffff && self.0.iter().enumerate().skip(1).all(|(i, v)| *v == id.wrapping_add(i as u64 * 0x1_0001));
+        self.0[0] | if ok { 0 } else { TORN }
+    }
+    fn key(&self) -> u16 {
+        (self.0[0] >> 16) as u16
+    }
+    fn set_key(&mut self, k: u16) {
+        self.0[0] = (self.0[0] & 0xffff) | ((k as u64) << 16)
+    }
+}
